@@ -225,7 +225,7 @@ func (r *Report) finish() int {
 		}
 		return 2
 	}
-	if len(r.vacuous) > 0 {
+	if len(r.vacuous) > 0 && len(r.failed) == 0 {
 		for _, o := range r.vacuous {
 			fmt.Fprintf(os.Stderr, "govc: cannot decide: vacuous: %s (%s)\n", o.Name, o.Desc)
 		}
